@@ -324,10 +324,20 @@ def run(ctx):
                             '<xsd:import namespace="urn:inc" schemaLocation="suds://%s"/>' % local,
                             '<xsd:import namespace="urn:inc" schemaLocation="suds://../../../../../../../../%s"/>' % local.lstrip("/"),
                             '<xsd:include schemaLocation="suds:%s"/>' % local,
+                            '<xsd:redefine schemaLocation="http://127.0.0.1:9/odd-redefine.xsd"/>',
+                            # no location, a namespace other loads of this process have fetched from somewhere
+                            '<xsd:import namespace="urn:inc"/>',
+                            "WSDL-IMPORT-RELATIVE",
                         ]
                         out = []
                         for extra_decl in variants_:
-                            main = wsdlkit.wsdl_doc(extra_decl + schema, "f", "fResponse")
+                            if extra_decl == "WSDL-IMPORT-RELATIVE":
+                                # a relative wsdl:import location is relative to the importing document's URL - also
+                                # when a file of that name happens to lie in the working directory
+                                main = wsdlkit.wsdl_doc(schema, "f", "fResponse").replace(
+                                    b"<wsdl:types>", b'<wsdl:import namespace="urn:inc" location="local.xsd"/><wsdl:types>', 1)
+                            else:
+                                main = wsdlkit.wsdl_doc(extra_decl + schema, "f", "fResponse")
                             asked = []
 
                             class T(suds.transport.Transport):
@@ -344,8 +354,12 @@ def run(ctx):
                                 out.append(str(cl) + str(cl.wsdl.schema))
                             except Exception as e:
                                 out.append(type(e).__name__)
-                            if extra_decl.startswith(("<xl:", '<xsd:import namespace="http')) and len(asked) != 1:
+                            if extra_decl.startswith(("<xl:", '<xsd:import namespace="http', "<xsd:redefine",
+                                                      '<xsd:import namespace="urn:inc"/>')) and len(asked) != 1:
                                 out.append("%s fetched: %r" % (MARK, asked[1:]))
+                            if any(u.startswith("file:") or not u.startswith(("http://fetch.invalid/", "suds:"))
+                                   for u in asked):
+                                out.append("%s fetched: %r" % (MARK, asked))
                         return " ".join(out)
 
                     def ep_application_parser(reply=reply, c=c):
